@@ -89,7 +89,8 @@ def reformat_file(
         raise ValueError("Cannot use `inplace` with stdin")
 
     if read_stdin:
-        text = sys.stdin.read()
+        # A file is read with universal newlines; piped input must be the same text.
+        text = sys.stdin.read().replace("\r\n", "\n").replace("\r", "\n")
     else:
         text = Path(path).read_text()
 
